@@ -4,6 +4,7 @@ import GN.Driver.C16
 import GN.Driver.C19
 import GN.Driver.C20
 import GN.Driver.Req
+import GN.Driver.EL
 
 /-! Line-protocol driver: one verdict line per case line read from stdin. -/
 
@@ -18,6 +19,7 @@ def dispatch (line : String) : String :=
   | "C19" :: rest => GN.Driver.C19.handle rest
   | "C20" :: rest => GN.Driver.C20.handle rest
   | "REQ" :: rest => GN.Driver.Req.handle rest
+  | "EL" :: rest => GN.Driver.EL.handle rest
   | [] => "EMPTY"
   | _ => "BADLINE unknown-tag"
 
